@@ -691,7 +691,7 @@ func (x *exec) check(out outcome) {
 				} else if lr.n2 != wantN || !bytes.Equal(lr.data, D[min64(spec.off, int64(len(D))):min64(spec.off, int64(len(D)))+int64(wantN)]) {
 					x.violation(site+":wrong-bytes", "consumer %s: ReadAt(len=%d,off=%d) gave n=%d %s; object is %s", lr.n.id, spec.plen, spec.off, lr.n2, short(lr.data), short(D))
 				} else if !acc.success {
-					if lr.err == io.EOF && acc.taskErr && base.baseAccept().success {
+					if lr.err == io.EOF && acc.taskErr {
 						w.Count("readat_eof_in_preference_to_task_error", 1)
 					} else {
 						unexpectedSuccess("ReadAt succeeded")
